@@ -10,6 +10,10 @@ import enginecheck as ec
 THEOREM = 'C15_epipe_prefix / C15_finish_noop / C15_stop_is_not_an_error (Props/C15.v) + Engine trace under fail_at k'
 
 
+def r_sample(ctx, xs, k):
+    return ctx.rng.sample(xs, min(k, len(xs)))
+
+
 def shapes(r):
     """query shapes: streaming, sorted, aggregated, distinct-count, unnest, update, header"""
     return [
@@ -225,6 +229,68 @@ def run(ctx):
         if 'invalid' in c['tags']:
             ctx.nontriv(('bytes', bytes(c['bytes']), c['cs']))
 
+    # (c') the same clause for the rbql-js stream reader, over EVERY partition of the bytes into chunks (an invalid sequence may be cut
+    #      anywhere, with chunks of plain ASCII in between: what a decoder holds back across a chunk boundary is still part of the input)
+    jc = []
+    jsamples = [b'a,b\n', 'é\n'.encode(), 'x世\n'.encode()]
+    jbad = [b'\xff', b'\x80', b'\xc3', b'\xe4\xb8', b'\xc0\xaf', b'\xc3a\xa9', b'\xe4a\xb8\xad', b'\xf0\x9fab\x98\x80', b'\xc3ab,c\xa9']
+    for smp in jsamples:
+        jc.append({'mode': 'jsbytes', 'kind': 'all', 'data': list(smp), 'encoding': 'utf-8', 'policy': 'simple', 'delim': ',', 'comment': None, 'header': False, 'modifier': None,
+                   'modes': ['from', 'push'], 'tags': ['jsbytes', 'valid']})
+        for b in (jbad if ctx.tier != 'quick' else r_sample(ctx, jbad, 5)):
+            for pos in sorted(set([0, len(smp) // 2, len(smp)])):
+                data = smp[:pos] + b + smp[pos:]
+                if len(data) > 11:
+                    continue
+                jc.append({'mode': 'jsbytes', 'kind': 'all', 'data': list(data), 'encoding': 'utf-8', 'policy': 'simple', 'delim': ',', 'comment': None, 'header': False,
+                           'modifier': None, 'modes': ['from', 'push'], 'tags': ['jsbytes', 'invalid']})
+    jgot = lib.run_impl_js('c20', jc, extra_env={'VERIF_SCRATCH': lib.BUILD})
+
+    def rel_jsbytes(c, e, g):
+        if not isinstance(g, dict) or 'stream' not in g:
+            return False
+        outs = [o[0] for o in g['stream']] + [g['bulk']]
+        if e['valid']:
+            return all(o[0] == 'ok' for o in outs)
+        return all(o[0] == 'err' and 'IOHandling' in str(o[1]) for o in outs)
+    jexp = [{'valid': 'valid' in c['tags']} for c in jc]
+    ctx.compare(jc, jexp, jgot, 'C15 decode clause, rbql-js (C20_invalid_rejected, Props/C20.v): invalid UTF-8 => IO-handling error under every chunking', rel=rel_jsbytes,
+                describe=lambda c, e, g: 'rbql-js: bytes %r over all partitions into chunks: expected %s, outcomes %s' % (bytes(c['data']), e, json.dumps(g)[:400]),
+                corrupt=lambda e: {'valid': not e['valid']})
+    for c in jc:
+        ctx.count(2 ** max(0, len(c['data']) - 1))
+        ctx.stat('jsbytes_' + c['tags'][1])
+        ctx.nontriv(('jsbytes', bytes(c['data'])))
+
+    # (b') a real pipe whose reader goes away: short and LONG outputs (the text layer buffers: the broken pipe surfaces wherever the
+    #      buffer is flushed - inside a write, or in finish), consumer gone after 0 bytes, a few bytes, several buffers
+    oc = []
+    for n in ([3, 400, 1000, 1001, 2600] if ctx.tier == 'quick' else [0, 1, 3, 400, 999, 1000, 1001, 1024, 2600, 5000, 20000]):
+        for rd in ([0, 7, 9000] if ctx.tier == 'quick' else [0, 1, 7, 4096, 8192, 9000, 70000]):
+            for q, cell in (('select a1', 'r'), ('select a1, a2, NR', 'a much longer first field, so that lines fill the buffers sooner ')):
+                oc.append({'mode': 'ospipe', 'n': n, 'read': rd, 'q': q, 'cell': cell, 'tags': ['ospipe']})
+    ogot = lib.run_impl_py('c15', oc, shards=8)
+
+    def full_output(c):
+        if c['q'] == 'select a1':
+            return ''.join('%s%d\n' % (c['cell'], i) for i in range(c['n']))
+        return ''.join('%s%d,v,%d\n' % (c['cell'], i, i + 1) for i in range(c['n']))
+
+    def rel_ospipe(c, e, g):
+        if not isinstance(g, dict) or 'received' not in g:
+            return False
+        if g['error'] is not None or g['status'] != 0:
+            return False                      # returns without error, whatever the size of the output
+        full = e['full']
+        return full.startswith(g['received']) and len(g['received']) == min(c['read'], len(full))
+    ctx.compare(oc, [{'full': full_output(c)} for c in oc], ogot, THEOREM + ' ; real pipe: the query returns without error and the consumer holds a prefix of the output', rel=rel_ospipe,
+                describe=lambda c, e, g: 'consumer of a real pipe gone after %d bytes, query %r over %d records: %s' % (c['read'], c['q'], c['n'], json.dumps({k: v for k, v in g.items() if k != 'received'} if isinstance(g, dict) else g)[:300]),
+                corrupt=lambda e: {'full': 'CANARY' + e['full']})
+    for c in oc:
+        ctx.count()
+        ctx.stat('ospipe')
+        ctx.nontriv(('ospipe', c['n'], c['read'], c['q']))
+
     # (d) descriptor hygiene of query_csv on every outcome class (runtime, observed)
     fc = fd_cases(ctx)
     fgot = lib.run_impl_py('c15', fc, shards=1, extra_env={'VERIF_SCRATCH': lib.BUILD})
@@ -238,7 +304,8 @@ def run(ctx):
     ctx.sample_safe(lambda: {'kind': 'fd', 'scenarios': [[c['tags'][1], g] for c, g in zip(fc, fgot)][:4]})
     ctx.rule = ('(a) recording writer refusing its k-th write for every k x 9 query shapes x random tables: trace/pulls/error = model, protocol checked on the implementation trace; '
                 '(b) CSVWriter over a stream raising BrokenPipeError at its k-th write for every k: accepted text = model prefix, no operation after the refusal, no error, sys.stdout left open; '
-                '(c) 7 invalid UTF-8 sequences at every byte position of 5 samples x chunk sizes {1,2,3,1024}: IO-handling error and no records; (d) /proc/self/fd before/after query_csv on 14 '
+                '(c) 7 invalid UTF-8 sequences at every byte position of 5 samples x chunk sizes {1,2,3,1024}: IO-handling error and no records; the same through the rbql-js stream reader over ALL partitions of the bytes into chunks and the bulk path (9 invalid sequences, also a character cut in two by plain ASCII); '
+                '(b2) a real OS pipe whose reader goes away after 0 / 7 / 9000 bytes, outputs of 3 to 2600 lines (thorough: to 20000) written through the usual buffered text stream in a child process: no error, the bytes received are a prefix of the output; (d) /proc/self/fd before/after query_csv on 14 '
                 'success/parsing/runtime/IO/syntax scenarios (every file object opened by the front-end is tracked and must be closed); non-trivial = distinct case with a refused write / broken pipe / invalid byte / any fd scenario')
 
 
@@ -249,6 +316,21 @@ def replay(ctx, case):
         g = lib.run_impl_py('c15', [case], shards=1)[0]
         ctx.count()
         ctx.compare([case], [e], [g], THEOREM, rel=lambda c, e_, g_: e_ is None or (isinstance(g_, dict) and e_['events'] == g_.get('events') and e_['error'] == g_.get('error') and e_['pulls'] == g_.get('pulls') and proto_ok(g_)), describe=ec.describe)
+    elif mode == 'jsbytes':
+        g = lib.run_impl_js('c20', [case], shards=1, extra_env={'VERIF_SCRATCH': lib.BUILD})[0]
+        ctx.count()
+        valid = 'valid' in case['tags']
+        outs = ([o[0] for o in g['stream']] + [g['bulk']]) if isinstance(g, dict) and 'stream' in g else [['?']]
+        ok = all(o[0] == 'ok' for o in outs) if valid else all(o[0] == 'err' and 'IOHandling' in str(o[1]) for o in outs)
+        ctx.compare([case], [{'valid': valid}], [g], THEOREM, rel=lambda c, e_, g_: ok and e_ == {'valid': valid})
+    elif mode == 'ospipe':
+        g = lib.run_impl_py('c15', [case], shards=1)[0]
+        ctx.count()
+        full = (''.join('%s%d\n' % (case['cell'], i) for i in range(case['n'])) if case['q'] == 'select a1'
+                else ''.join('%s%d,v,%d\n' % (case['cell'], i, i + 1) for i in range(case['n'])))
+        ok = (isinstance(g, dict) and g.get('error') is None and g.get('status') == 0 and full.startswith(g.get('received', 'x'))
+              and len(g['received']) == min(case['read'], len(full)))
+        ctx.compare([case], [{'full': full}], [g], THEOREM, rel=lambda c, e_, g_: ok and e_ == {'full': full})
     else:
         g = lib.run_impl_py('c15', [case], shards=1)[0]
         ctx.count()
@@ -262,4 +344,4 @@ def replay(ctx, case):
         else:
             e = {'leak': 0}
             ok = isinstance(g, dict) and g.get('leak') == 0
-        ctx.compare([case], [e], [g], THEOREM, rel=lambda c, e_, g_: ok)
+        ctx.compare([case], [e], [g], THEOREM, rel=lambda c, e_, g_: ok and e_ == e)
